@@ -855,3 +855,158 @@ def exec_versions(case):
         return finish(g, viol, probes, case, props)
     finally:
         g.close()
+
+
+# ------------------------------------------------------------------------------------------
+# profile: concurrent (C12 concurrent writers are detected, never silently clobbered)
+# ------------------------------------------------------------------------------------------
+def gen_concurrent(seed, tier, focus="C12"):
+    ch = Chooser(seed)
+    cfg = gen_common(ch, tier)
+    cfg["fmt"] = ch.pick("config", "fmt", ["SDMF", "MDMF"])
+    nw = ch.pick("config", "writers", [2, 2, 3])
+    cfg["writers"] = nw
+    # k, N on both sides of (writers+1)*k <= N
+    if ch.chance("config", "roomy", 0.6):
+        cfg["k"] = ch.randint("config", "k2", 1, 3)
+        cfg["n"] = min(10, (nw + 1) * cfg["k"] + ch.randint("config", "slack", 0, 2))
+    cfg["nservers"] = ch.randint("config", "ns2", max(2, min(cfg["n"], 4)), 10)
+    W = "workload"
+    sz = sizes_for(cfg)
+    ops = [["create", ch.pick(W, "csize", sz[1:]), ch.randint(W, "cpat", 1, 1 << 30)]]
+    for wi in range(nw):
+        ops.append(["write", wi, ch.pick(W, ("kind", wi), ["overwrite", "overwrite", "modify"]), ch.pick(W, ("size", wi), sz[1:]),
+                    ch.randint(W, ("pat", wi), 1, 1 << 30), ch.pick(W, ("start", wi), [0.0, 0.0, 0.001, 0.05, 0.3, 1.0])])
+    cfg["net"]["jitter"] = ch.pick("config", "jitter2", [0.05, 0.5, 0.5])
+    return {"engine": "mutsim", "profile": "concurrent", "focus": "C12", "seed": seed, "cfg": cfg, "ops": ops, "faults": []}
+
+
+def exec_concurrent(case):
+    from sim.runner import child_tmp
+    cfg = case["cfg"]
+    base = tempfile.mkdtemp(dir=child_tmp())
+    viol, probes = [], {}
+
+    def probe(nm, c=1):
+        probes[nm] = probes.get(nm, 0) + c
+
+    def bad(clause, detail, sig=None):
+        viol.append({"clause": "C12.%s" % clause, "sig": sig or "C12.%s" % clause, "detail": detail})
+
+    g = build_grid(case, base)
+    try:
+        mon = ReadvMonitor(g, viol)
+        k, n = cfg["k"], cfg["n"]
+        creator = g.add_client(k=k, happy=1, n=n, fmt=cfg["fmt"])
+        ver = MDMF_VERSION if cfg["fmt"] == "MDMF" else SDMF_VERSION
+        creates = [op for op in case["ops"] if op[0] == "create"]
+        op0 = creates[0] if creates else ["create", 10, 1]
+        data0 = b"base:" + pat_bytes(op0[2], op0[1])
+        st, node0 = run(creator.create_mutable_file(MutableData(data0), version=ver))
+        if st != "ok":
+            return finish(g, viol, probes, case, ("C12",))
+        settle(200_000)
+        cap = node0.get_uri()
+        si = si_of_cap(cap)
+        contents = {0: data0}
+        writers = []
+        results = {}
+        wops = [op for op in case["ops"] if op[0] == "write"]
+        for op in wops:
+            _, wi, kind, size, pat, start = op
+            c = g.add_client(k=k, happy=1, n=n, fmt=cfg["fmt"])      # separate NodeMaker: no shared serializer
+            nodew = c.create_node_from_uri(cap)
+            data = pat_bytes(pat, size)
+            writers.append((wi, c, nodew, kind, data))
+
+            def go(wi=wi, nodew=nodew, kind=kind, data=data):
+                if kind == "overwrite":
+                    d = nodew.overwrite(MutableData(data))
+                else:
+                    token = b"|W%d:" % wi + data.hex().encode()[:24]
+
+                    def modifier(old, servermap, first_time, token=token):
+                        # idempotent, like a directory edit: make sure our token is present
+                        return old if token in old else old + token
+                    d = nodew.modify(modifier)
+                d.addCallbacks(lambda r: results.setdefault(wi, ("ok", r)), lambda f: results.setdefault(wi, ("err", f)))
+            if start:
+                dc = R.callLater(start, go)
+                dc.sim_label = "writer-%d-start" % wi
+            else:
+                go()
+        try:
+            settle(400_000)
+        except EventCap:
+            bad("livelock", "concurrent writers never quiesce")
+            return finish(g, viol, probes, case, ("C12",))
+        state = disk_state(g.servers, si)
+        vers = versions_on_disk(state)
+        # (b) per writer: refused writes must not end in silent success
+        by_writer = {}
+        for wv in mon.writes:
+            by_writer.setdefault(wv["caller"], []).append(wv)
+        for (wi, c, nodew, kind, data) in writers:
+            if wi not in results:
+                bad("writer-hung", "writer %d never finished although the queue drained" % wi)
+                continue
+            st, res = results[wi]
+            mine = by_writer.get(c.sim_name, [])
+            refused = [x for x in mine if x["ok"] is False]
+            if st == "ok":
+                probe("writer-ok")
+                if kind == "overwrite" and refused:
+                    # an overwrite does not retry: a refused test vector must surface as UncoordinatedWriteError
+                    bad("refused-write-but-success", "writer %d (overwrite) had %d of its %d writes refused by test vectors yet reported success" % (
+                        wi, len(refused), len(mine)))
+                if refused:
+                    probe("writer-ok-after-refusal-and-retry")
+            else:
+                probe("writer-err-" + err_name(res))
+                from allmydata.mutable.common import UnrecoverableFileError
+                # being unable to read/recover because of the other writer is also "noticed, not silent"
+                if not res.check(UncoordinatedWriteError, NotEnoughServersError, NotEnoughSharesError, UnrecoverableFileError):
+                    bad("wrong-error", "writer %d failed with %s: %s" % (wi, err_name(res), res.getTraceback()[-1500:]), sig="C12.wrong-error." + err_site(res))
+        # (c) recoverability when (writers+1)*k <= N and nobody stopped midway
+        recoverable = [v for v, shmap in vers.items() if len(shmap) >= k]
+        if (len(writers) + 1) * k <= n and len(g.servers) >= 1:
+            probe("roomy")
+            if not recoverable:
+                bad("nothing-recoverable", "(writers+1)*k = %d <= N = %d, every writer ran to completion, yet no version has k=%d distinct shares on disk: %r" % (
+                    (len(writers) + 1) * k, n, k, {("seq%d" % v[1]): sorted(m) for v, m in vers.items()}))
+        else:
+            probe("tight")
+        # a reader sees one of the contents that were written (or fails when nothing is recoverable)
+        rd = g.add_client(k=k, happy=1, n=n)
+        st, res = run(rd.create_node_from_uri(cap).download_best_version(), 300_000)
+        bases = [data0] + [data for (wi, c, nodew, kind, data) in writers if kind == "overwrite"]
+        tokens = {wi: b"|W%d:" % wi + data.hex().encode()[:24] for (wi, c, nodew, kind, data) in writers if kind != "overwrite"}
+        only_modifiers = all(kind != "overwrite" for (wi, c, nodew, kind, data) in writers)
+        if st == "ok":
+            probe("final-read-ok")
+            base_ = [b for b in bases if res.startswith(b)]
+            rest = res[len(max(base_, key=len)):] if base_ else None
+            ok_shape = rest is not None
+            if ok_shape:
+                r_ = rest
+                for tk in sorted(tokens.values(), key=len, reverse=True):
+                    r_ = r_.replace(tk, b"", 1)
+                ok_shape = (r_ == b"")
+            if not ok_shape:
+                bad("clobbered-bytes", "final contents (%d bytes) are not a base written by someone plus tokens appended by the modifiers" % len(res))
+            elif only_modifiers:
+                for wi, tk in tokens.items():
+                    if results.get(wi, ("?",))[0] == "ok" and tk not in res:
+                        bad("lost-update", "writer %d's modify() reported success but its change is missing from the final contents (the other writer's publish replaced it without either noticing)" % wi)
+        elif st == "err":
+            probe("final-read-err-" + err_name(res))
+            if recoverable and (len(writers) + 1) * k <= n:
+                bad("final-read-failed", "a version is recoverable from disk but the read failed with %s" % err_name(res), sig="C12.final-read-failed." + err_site(res))
+        else:
+            bad("final-read-hung", "final read never completed")
+        # every successful overwrite writer: either its contents are final, or another writer's write came after (we cannot
+        # order them from outside), so no per-writer final check beyond legality.
+        probe("versions-on-disk-%d" % min(3, len(vers)))
+        return finish(g, viol, probes, case, ("C12",))
+    finally:
+        g.close()
